@@ -45,6 +45,7 @@ type c17hsCase struct {
 	AtUs     int      `json:"at_us"`
 	Victim   string   `json:"victim,omitempty"` // part B: client | server
 	Blocked  []string `json:"blocked,omitempty"`
+	VNeg     bool     `json:"vneg,omitempty"` // the client offers v2 first, the server only speaks v1: the dial is re-created after a Version Negotiation packet
 	HookSeed uint64   `json:"hook_seed"`
 }
 
@@ -76,6 +77,17 @@ func TestVerifC17Handshake(t *testing.T) {
 						at += 137 * rep
 					}
 					add(c17hsCase{Name: fmt.Sprintf("hs/%s/%s/at%dus/r%d", cause, cl, at, rep), Cause: cause, Client: cl, AtUs: at})
+				}
+			}
+		}
+	}
+	// version negotiation: the first attempt ends with a Version Negotiation packet at 10 ms, the dial is
+	// re-created and completes at about 20 ms; the cause hits around both instants
+	for rep := 0; rep < l.Pick(3, 24); rep++ {
+		for _, cause := range []string{"dial-cancel", "transport-close", "server-silent"} {
+			for _, cl := range []string{"plain", "unil"} {
+				for _, at := range []int{9000, 9900, 10000, 10050, 10400, 11000, 12500, 14000, 16000, 19900, 20100, 23000} {
+					add(c17hsCase{Name: fmt.Sprintf("hs-vneg/%s/%s/at%dus/r%d", cause, cl, at+rep*61, rep), Cause: cause, Client: cl, AtUs: at + rep*61, VNeg: true})
 				}
 			}
 		}
@@ -181,6 +193,10 @@ func c17hsOptions(cs *c17hsCase) (quicworld.Options, error) {
 		InitialStreamReceiveWindow: 4096, MaxStreamReceiveWindow: 4096}
 	opt.ServerConf = &quic.Config{HandshakeIdleTimeout: c17hsHandshakeIdle, MaxIdleTimeout: c17hsIdle, EnableDatagrams: true, MaxIncomingStreams: 2, MaxIncomingUniStreams: 1,
 		InitialStreamReceiveWindow: 4096, MaxStreamReceiveWindow: 4096, Allow0RTT: true}
+	if cs.VNeg {
+		opt.ServerConf.Versions = []quic.Version{quic.Version1}
+		opt.ClientConf.Versions = []quic.Version{quic.Version2, quic.Version1}
+	}
 	switch cs.Client {
 	case "plain":
 	case "unil":
@@ -225,6 +241,15 @@ func runC17Dial(l *evlog.Log, c *evlog.Case, cs *c17hsCase) {
 	var firstAESendAfterRecv time.Duration = -1
 	w.Router.SetOnDeliver(func(d *wiretap.DatagramInfo, mod wiretap.Mod) {
 		if d.Dir == wiretap.S2C {
+			// a Version Negotiation packet either ends the attempt it answers or is ignored: it never restarts
+			// the idle period of the connection that the dial ends up with
+			vnOnly := len(d.Packets) > 0
+			for _, p := range d.Packets {
+				vnOnly = vnOnly && p.Kind == wiretap.KindVN
+			}
+			if vnOnly {
+				return
+			}
 			rmu.Lock()
 			lastRecvClient = w.Router.Now()
 			firstAESendAfterRecv = -1
@@ -437,7 +462,7 @@ func runC17Dial(l *evlog.Log, c *evlog.Case, cs *c17hsCase) {
 		}
 		l.Count("hs_accept_returned_connection", 1)
 	}
-	c.Eval(fmt.Sprintf("hs/%s/%s/%d/%s", cs.Cause, cs.Client, cs.AtUs, outcome))
+	c.Eval(fmt.Sprintf("hs/%s/%s/%d/%s/vneg=%v", cs.Cause, cs.Client, cs.AtUs, outcome, cs.VNeg))
 	l.Count("hs_outcome_"+outcome, 1)
 	c.Sample("hs-"+cs.Cause, map[string]any{"case": cs.Name, "outcome": outcome, "dial_returned_after": (d.at - t0).String()})
 }
